@@ -275,6 +275,14 @@ func (mbs *metadataPartStorage) AppendObject(ctx context.Context, bucketName sto
 			Size:         totalSize,
 			Parts:        allParts,
 		}
+		if existingObject != nil {
+			// An append that writes a new version (versioning enabled) must carry
+			// the object's metadata, tags and storage class over like its content
+			// type; the in-place update keeps them on the existing row anyway.
+			updatedObject.Metadata = existingObject.Metadata
+			updatedObject.Tags = existingObject.Tags
+			updatedObject.StorageClass = existingObject.StorageClass
+		}
 
 		metaOpts := &metadatastore.AppendObjectOptions{}
 		metadataResult, err := mbs.metadataStore.AppendObject(ctx, tx.SqlTx(), bucketName, updatedObject, metaOpts)
